@@ -19,7 +19,7 @@
     (paths of methods of [sk]); [wp] switches sync.RWMutex's writer preference
     on or off (the theorems hold for both); [wfun] are the (uninterpreted)
     functions computing written values from the values read. *)
-From HV Require Import Base.Prelude Base.Locks C07.Model C07.Proofs Gen.RepoSkel C07.Repo.
+From HV Require Import Base.Prelude Base.Locks C07.Model C07.Lin C07.Proofs Gen.RepoSkel C07.Repo.
 
 (** no interleaving reaches a crash: unlock of an unlocked mutex, nil
     dereference (use of an object pointer that was never loaded), or code the
@@ -60,6 +60,76 @@ Theorem C07_deadlock_free :
 Proof. exact g_deadlock_free. Qed.
 Print Assumptions C07_deadlock_free.
 
+(** LINEARIZABILITY.  Every execution [ls] (any interleaving, any number of
+    threads and operations) from an initial configuration [c0] can be annotated
+    ([lin]) with the sequential machine: at the linearization point of each
+    operation — its last access to guarded state: the publishing store of a
+    change, the load of the tree pointer of a lookup — the sequential
+    specification [seq_run] executes the WHOLE operation atomically.  Then
+    - [seq_hist]: the operations in linearization-point order [lins tr] form a
+      legal sequential history of the specification from the initial state;
+    - [wb]: per thread the marks of [tr] come as invocation, linearization,
+      response, and each response carries the same operation and the SAME log
+      (everything the operation read, hence every result it can return) as its
+      linearization mark: the operation took effect once, between its
+      invocation and its response (so real-time order is respected), and
+      returned what the sequential history says;
+    - [io_marks tr = io_labels ls]: the invocations/responses of [tr] are the
+      real starts and ends of the execution. *)
+Theorem C07_linearizable :
+  forall (val arg : Type) (wfun : op arg -> nat -> list val -> val) (sk : skel) (wp : bool) (K : lock),
+    wf_skel K sk = true ->
+    forall (c0 : cfg val arg) ls c,
+      initial c0 -> exec wfun sk wp c0 ls c ->
+      exists σ pl tr ph,
+        lin wfun sk wp c0 ls c σ pl tr /\
+        seq_hist wfun sk (abs_of c0) (lins tr) σ /\
+        wb (fun _ => PIdle) tr ph /\
+        io_marks tr = io_labels ls.
+Proof. exact g_linearizable. Qed.
+Print Assumptions C07_linearizable.
+
+(** every concurrently served request is matched against one committed state:
+    a completed operation (in particular a lookup) returned exactly the log the
+    sequential specification produces for it in a state [s1] that is reached by
+    executing whole operations one after the other — never a partially applied
+    change *)
+Theorem C07_readers_see_committed_state :
+  forall (val arg : Type) (wfun : op arg -> nat -> list val -> val) (sk : skel) (wp : bool) (K : lock),
+    wf_skel K sk = true ->
+    forall (c0 : cfg val arg) ls c t o log,
+      initial c0 -> exec wfun sk wp c0 ls c -> In (LEnd t o log) ls ->
+      exists H H1 H2 s s1 s2,
+        seq_hist wfun sk (abs_of c0) H s /\ H = H1 ++ (t, o, log) :: H2 /\
+        seq_hist wfun sk (abs_of c0) H1 s1 /\ seq_run wfun sk o s1 = Some (s2, log).
+Proof. exact g_committed. Qed.
+Print Assumptions C07_readers_see_committed_state.
+
+(** no change is lost or half overwritten: when no operation is in flight, the
+    guarded fields and the published tree ARE the state reached by the
+    sequential history, which contains every completed operation *)
+Theorem C07_no_lost_update :
+  forall (val arg : Type) (wfun : op arg -> nat -> list val -> val) (sk : skel) (wp : bool) (K : lock),
+    wf_skel K sk = true ->
+    forall (c0 : cfg val arg) ls c,
+      initial c0 -> exec wfun sk wp c0 ls c -> (forall t, c_thr c t = None) ->
+      exists H σ,
+        seq_hist wfun sk (abs_of c0) H σ /\
+        (forall t o log, In (LEnd t o log) ls -> In (t, o, log) H) /\
+        (forall v, c_val c v = s_val σ v) /\ (forall p, c_heap c (c_ptr c p) = s_pub σ p).
+Proof. exact g_no_lost_update. Qed.
+Print Assumptions C07_no_lost_update.
+
+(** non-vacuity of the specification side: the sequential run of every path of a
+    well-formed skeleton succeeds from every state *)
+Theorem C07_seq_spec_total :
+  forall (val arg : Type) (wfun : op arg -> nat -> list val -> val) (sk : skel) (K : lock),
+    wf_skel K sk = true ->
+    forall (o : op arg) path (s : sstate val),
+      path_of sk o = Some path -> exists s' log, seq_run wfun sk o s = Some (s', log).
+Proof. exact g_seq_total. Qed.
+Print Assumptions C07_seq_spec_total.
+
 (** the instances for the repository as it is in the working tree *)
 Theorem C07_repo_safe :
   forall (val arg : Type) (wfun : op arg -> nat -> list val -> val) (wp : bool) (c : cfg val arg),
@@ -68,3 +138,20 @@ Theorem C07_repo_safe :
     ((exists t r, c_thr c t = Some r) -> progress wfun repo_skel wp c).
 Proof. exact repo_safe. Qed.
 Print Assumptions C07_repo_safe.
+
+Theorem C07_repo_linearizable :
+  forall (val arg : Type) (wfun : op arg -> nat -> list val -> val) (wp : bool) (c0 : cfg val arg) ls c,
+    initial c0 -> exec wfun repo_skel wp c0 ls c ->
+    (exists σ pl tr ph,
+       lin wfun repo_skel wp c0 ls c σ pl tr /\ seq_hist wfun repo_skel (abs_of c0) (lins tr) σ /\
+       wb (fun _ => PIdle) tr ph /\ io_marks tr = io_labels ls) /\
+    (forall t o log, In (LEnd t o log) ls ->
+       exists H H1 H2 s s1 s2,
+         seq_hist wfun repo_skel (abs_of c0) H s /\ H = H1 ++ (t, o, log) :: H2 /\
+         seq_hist wfun repo_skel (abs_of c0) H1 s1 /\ seq_run wfun repo_skel o s1 = Some (s2, log)) /\
+    ((forall t, c_thr c t = None) ->
+       exists H σ, seq_hist wfun repo_skel (abs_of c0) H σ /\
+         (forall t o log, In (LEnd t o log) ls -> In (t, o, log) H) /\
+         (forall v, c_val c v = s_val σ v) /\ (forall p, c_heap c (c_ptr c p) = s_pub σ p)).
+Proof. exact repo_linearizable. Qed.
+Print Assumptions C07_repo_linearizable.
